@@ -5,7 +5,6 @@ package main
 import (
 	"bytes"
 	"context"
-	"encoding/json"
 	"fmt"
 	"runtime"
 	"sort"
@@ -369,7 +368,7 @@ func c18Run(r *vkit.Run) {
 
 func c18Replay(r *vkit.Run, v vkit.Violation) *vkit.Violation {
 	var in c18Input
-	if err := json.Unmarshal(v.Input, &in); err != nil {
+	if err := vkit.DecodeInput(v, &in); err != nil {
 		r.HarnessError("bad input: %v", err)
 	}
 	return vkit.ReplayOne(r, func() {
